@@ -14,8 +14,9 @@ from collections import Counter
 from . import env
 
 VERIF = env.VERIF
-EVIDENCE_DIR = os.path.join(VERIF, "evidence")
-REPLAY_DIR = os.path.join(VERIF, "replays")
+# (the two overrides are for tools that run checks against scratch copies in parallel; the registered commands never set them)
+EVIDENCE_DIR = os.environ.get("VT_EVIDENCE_DIR") or os.path.join(VERIF, "evidence")
+REPLAY_DIR = os.environ.get("VT_REPLAY_DIR") or os.path.join(VERIF, "replays")
 KNOWN_FILE = os.path.join(VERIF, "KNOWN_FINDINGS.txt")
 SCHEMA = "/root/.vp/EVIDENCE.schema.json"
 
